@@ -208,7 +208,9 @@ CHECKS = {
         'Lean 4 theorems: the Kraus-branch selection loop of the state-vector trajectory simulator (p -= weight; if p < 0: break) selects '
         'branch k exactly when the uniform draw lies in the k-th interval of the cumulative weights, for any non-negative weights '
         '(C09_select_iff over the rationals); the Choi <-> superoperator index reshuffle is an involution for every dimension '
-        '(C09_reshuffle_involution). The reference semantics (Spec.Circuit: one branch per Kraus operator, and independently the '
+        '(C09_reshuffle_involution); Props.C09b: the documented Kraus operators of bit_flip, phase_flip, amplitude_damp, phase_damp, asymmetric_depolarize, generalized_amplitude_damp and reset satisfy '
+        'sum_k K_k^dagger K_k = 1 for every parameter whose weights add up to one (so the selection probabilities of C09_select_iff sum to one for every state), over any commutative ring with a conjugation '
+        'fixing the square roots (C09_*_tp; hypotheses instantiated for C and every 0 <= p <= 1 in NonVacuity/ComplexModel). The reference semantics (Spec.Circuit: one branch per Kraus operator, and independently the '
         'density-matrix evolution sum_k K rho K^dagger; the two are cross-checked on every case) is compared with DensityMatrixSimulator final '
         'states (validity: Hermitian, unit trace, positive), with the exact recombination of *all* state-vector trajectories enumerated '
         'through a symbolic uniform draw, with conversions Kraus / mixture / superoperator / Choi and back, and with noise-model simulation '
